@@ -290,18 +290,23 @@ func runOne(c *vh.Ctx, r *rand.Rand, rs runSpec) {
 		n := len(uc.Extensions)
 		switch r.Intn(9) {
 		case 0:
-			rnd := make([]byte, 32)
+			rnd := make([]byte, []int{32, 32, 32, 32, 31, 33, 0}[r.Intn(7)])
 			r.Read(rnd)
-			if uc.SetClientRandom(rnd) != nil {
+			serr := uc.SetClientRandom(rnd)
+			ops = append(ops, "KRandom "+words(rnd))
+			descr = append(descr, fmt.Sprintf("SetClientRandom(%d bytes)", len(rnd)))
+			if len(rnd) != 32 {
+				// refused: the random stays what it was
+				if serr == nil {
+					c.Fail("edit/random/"+strings.SplitN(key, "/", 2)[0], "SetClientRandom accepted a random that is not 32 bytes long", descr, len(rnd), "error")
+				}
 				continue
 			}
-			ops = append(ops, "KRandom "+words(rnd))
-			descr = append(descr, "SetClientRandom")
 			drop("random")
 			exps = append(exps, expect{what: "random", val: rnd})
 			fresh = false
 		case 1:
-			name := []string{"edited.example", "x.y.z.", "10.1.1.1", "a-much-longer-server-name.for-the-test.example.org", "[2001:db8::2]"}[r.Intn(5)]
+			name := []string{"edited.example", "x.y.z.", "10.1.1.1", "a-much-longer-server-name.for-the-test.example.org", "[2001:db8::2]", "", "x"}[r.Intn(7)]
 			uc.SetSNI(name)
 			host := extcoq.HostnameInSNI(extcoq.HostnameInSNI(name))
 			ops = append(ops, "KSNI "+vh.Bytes([]byte(host)))
@@ -310,8 +315,12 @@ func runOne(c *vh.Ctx, r *rand.Rand, rs runSpec) {
 			exps = append(exps, expect{what: "sni", val: []byte(host)})
 			fresh = false
 		case 2:
-			sid := make([]byte, []int{32, 32, 16, 1}[r.Intn(4)])
+			// boundary lengths of legacy_session_id<0..32>: empty (nil and zero-length), 1, 31, 32
+			sid := make([]byte, []int{32, 31, 16, 1, 0, 0}[r.Intn(6)])
 			r.Read(sid)
+			if len(sid) == 0 && r.Intn(2) == 0 {
+				sid = nil
+			}
 			uc.HandshakeState.Hello.SessionId = sid
 			ops = append(ops, "KSid "+words(sid))
 			descr = append(descr, fmt.Sprintf("Hello.SessionId=%d bytes", len(sid)))
@@ -320,18 +329,22 @@ func runOne(c *vh.Ctx, r *rand.Rand, rs runSpec) {
 			fresh = false
 		case 3:
 			cs := append([]uint16(nil), uc.HandshakeState.Hello.CipherSuites...)
-			if len(cs) < 2 {
-				continue
+			switch x := r.Intn(8); {
+			case x == 0:
+				cs = []uint16{} // no cipher suite: encodable, the server refuses the hello (an error case of the handshake)
+			case x == 1 && len(cs) > 0:
+				cs = cs[:1]
+			case len(cs) >= 2:
+				i, j := r.Intn(len(cs)), r.Intn(len(cs))
+				cs[i], cs[j] = cs[j], cs[i]
 			}
-			i, j := r.Intn(len(cs)), r.Intn(len(cs))
-			cs[i], cs[j] = cs[j], cs[i]
 			uc.HandshakeState.Hello.CipherSuites = cs
 			b := make([]byte, 0, 2*len(cs))
 			for _, s := range cs {
 				b = append(b, byte(s>>8), byte(s))
 			}
 			ops = append(ops, "KSuites "+words(b))
-			descr = append(descr, "Hello.CipherSuites reordered")
+			descr = append(descr, fmt.Sprintf("Hello.CipherSuites = %d suites (reordered / truncated / empty)", len(cs)))
 			drop("suites")
 			exps = append(exps, expect{what: "suites", u16s: cs})
 			fresh = false
